@@ -307,6 +307,19 @@ Fixpoint chain_ok (prev : list (text * list idx)) (us : list us_obs) : bool :=
       chain_ok ((uo_name u, uo_new_index u) :: prev) tl
   end.
 
+(* one real call of update.update_abbr_record: the $ABBREVIATED records of problem 0 with their
+   translate_to_pharmpy_names() pairs, rv_trans, the records that survived and the (pharmpy, nonmem) pairs created *)
+Record abbr_obs := mkAbbr {
+  ao_recs : list (positive * list (text * text));
+  ao_rv : list (text * text);
+  ao_kept : list positive;
+  ao_new : list (text * text)
+}.
+Definition pair_eqb (a b : text * text) : bool := text_eqb (fst a) (fst b) && text_eqb (snd a) (snd b).
+Definition check_abbr (a : abbr_obs) : bool :=
+  let (kept, rv') := abbr_scan (positive * list (text * text)) snd (ao_recs a) (ao_rv a) in
+  list_eqb Pos.eqb (map fst kept) (ao_kept a) && list_eqb pair_eqb rv' (ao_new a).
+
 Record mstep := mkMStep {
   ms_allowed : list text;                    (* record kinds that express the modified component *)
   ms_after : option (list srec);             (* None = the call raised *)
@@ -315,7 +328,8 @@ Record mstep := mkMStep {
   ms_updates : list us_obs;                  (* the real update_statements calls *)
   ms_sizes_in : option (nat * nat * bool);   (* resulting model: number of thetas, compartments, has a compartmental system *)
   ms_sizes_ins : list (list sizes_opt);      (* options of every $SIZES record inserted during the step *)
-  ms_reread : bool                           (* re-reading the resulting code gives the in-memory statements *)
+  ms_reread : bool;                          (* re-reading the resulting code gives the in-memory statements *)
+  ms_abbr : list abbr_obs                    (* the real update_abbr_record calls *)
 }.
 Record mcase := mkMCase {
   mc_text : text;
@@ -383,10 +397,14 @@ Definition nonstmt_ok (before after : list (text * nat * list text)) (after_name
 
 Definition static_sizes : sizes_thr := mkSizesThr 101 30 99.
 Definition s_SIZES_name : text := T "SIZES".
-Definition sizes_tags (s : mstep) : list nat :=
+Definition sizes_tags (prev : list srec) (s : mstep) : list nat :=
   match ms_sizes_in s with
   | None => []
   | Some (nth, ncomp, cs) =>
+      if existsb (fun r => text_eqb (fst r) s_SIZES_name) prev then
+        (* an existing $SIZES record is updated in place: nothing is inserted *)
+        tag (match ms_sizes_ins s with [] => true | _ => false end) 21
+      else
       match sizes_opts static_sizes nth ncomp cs with
       | None => []
       | Some [] => tag (match ms_sizes_ins s with [] => true | _ => false end) 21
@@ -413,7 +431,8 @@ Definition step_tags (before : list srec) (nsb : list (text * nat * list text)) 
       tag (nonstmt_ok nsb (ms_nonstmt s) (map fst after)) 16 ++
       tag (ms_reread s) 22
   end ++
-  sizes_tags s ++
+  sizes_tags before s ++
+  flat_map (fun a => tag (check_abbr a) 25) (ms_abbr s) ++
   tag (negb (existsb (fun e => match eo_kind e, eo_arg_rec e with
                                | 1, r :: _ => text_eqb (snd r) s_SIZES_name | _, _ => false end) (ms_calls s))) 216 ++
   tag (negb (existsb call_regroups (ms_calls s))) 212 ++
